@@ -31,11 +31,12 @@ def topic_matches(topic, flt):
 
 
 def strip_share(path):
+    """(group key, filter): the group is identified by share name AND topic filter"""
     if path.startswith(b"$share/"):
         rest = path[7:]
         if b"/" in rest:
-            g, p = rest.split(b"/", 1)
-            return g, p
+            _g, p = rest.split(b"/", 1)
+            return rest, p
     return None, path
 
 
@@ -97,6 +98,8 @@ class World:
         self.next_id = 0
         self.lost = None            # op index at which the ghost's id prediction was refuted
         self.epoch = 0              # number of CONSUME ops so far (forwards are pushed only there)
+        self.rewound_groups = {}    # group -> op index of the first cursor rewind (known finding)
+        self.known = []             # (op index, prop, finding id, text)
 
     def viol(self, i, prop, text):
         self.v.append((i, prop, text))
@@ -113,10 +116,17 @@ class World:
             del self.byname[l.name]
         if l.registered:
             self.live_count -= 1
+        # known finding K-C17-rewind: a persistent member leaves with unacknowledged forwards ->
+        # handle_disconnection rewinds the GROUP cursor to its oldest unacknowledged message
+        if not l.clean and l.unacked:
+            for p_ in list(l.subs):
+                g_, _f = strip_share(p_)
+                if g_ is not None:
+                    self.rewound_groups.setdefault(g_, i)
         # persistent session state
         if not l.clean:
             self.sessions[l.name] = ({p: (q, l) for p, (q, _a, _n) in l.subs.items()},
-                                     list(getattr(l, "rel_pending", [])))
+                                     list(getattr(l, "rel_pending", [])), l)
         else:
             self.sessions.pop(l.name, None)
         l.final_batch_from = l.final_batch_from if l.final_batch_from is not None else len(l.expected_acks)
@@ -186,6 +196,7 @@ class World:
         l.expect_session = (not l.clean) and sess is not None
         if not l.clean and sess is not None:
             l.resumed = True
+            l.prev = sess[2]
             for p, (q, _old) in sess[0].items():
                 l.subs[p] = (q, len(self.accepted), False)
                 l.resumed_subs = getattr(l, "resumed_subs", []) + [(p, q, 0)]
@@ -279,6 +290,8 @@ class World:
                 self.undecidable_ack(i, l)
                 return "unsolicited-ack"
             head = l.unacked.popleft()
+            if len(head) > 2:
+                head[2]["acked"] = True
             if kind == "PUBREC":
                 if head[1] != 2:
                     pass
@@ -374,7 +387,7 @@ class World:
                         self.viol(i, "C09", "forward to link %d carries packet id %d outside 1..%d" % (k, f["pkid"], MAX_INFLIGHT))
                     if any(u[0] == f["pkid"] for u in l.unacked):
                         self.viol(i, "C09", "packet id %d re-used for link %d while still unacknowledged" % (f["pkid"], k))
-                    l.unacked.append((f["pkid"], f["qos"]))
+                    l.unacked.append((f["pkid"], f["qos"], f))
                     if len(l.unacked) > MAX_INFLIGHT:
                         self.viol(i, "C09", "link %d has %d unacknowledged QoS>0 forwards (> %d)" % (k, len(l.unacked), MAX_INFLIGHT))
             elif n[0] == "UNSCHEDULE":
@@ -590,6 +603,78 @@ def check_delivery(w, q):
                     idx = [pos[x] for x in firsts]
                     if len(spans) == 1 and len(ss) == 1 and idx != sorted(idx):
                         w.viol(l.at, "C01", "link %d (%r): subscription %r delivered out of acceptance order" % (l.k, l.name, path))
+    # -------- C08: persistent sessions
+    for l in w.links:
+        if not l.registered or l.notes:
+            continue
+        first_sub = min([pi for (_p, _q, _s, pi) in getattr(l, "new_subs", [])] + [10 ** 9])
+        if not l.resumed:
+            # a connection without a resumed session starts with no subscriptions and no backlog
+            for f in l.fwd:
+                if f["at"] < first_sub:
+                    w.viol(f["at"], "C08", "link %d (%r, clean=%s, no session) received %r before subscribing to anything" % (l.k, l.name, l.clean, f["payload"]))
+                    break
+            continue
+        # chain of links of this session, oldest first
+        chain, c = [], l
+        while c is not None:
+            chain.append(c)
+            c = getattr(c, "prev", None) if c.resumed else None
+        chain.reverse()
+        if any(x.notes for x in chain):
+            continue
+        if getattr(l, "new_subs", None) or getattr(l, "unsubbed", None):
+            w.skips["c08-subs-changed-after-resume"] += 1
+            continue
+        paths = [p for (p, _q, _s) in getattr(l, "resumed_subs", [])]
+        if any(strip_share(p)[0] is not None for p in paths):
+            w.skips["c08-shared-sub"] += 1
+            continue
+        # when did each subscription of the session take effect (acceptance counter)
+        since = {}
+        for x in chain:
+            for (p, q, s_, _pi) in getattr(x, "new_subs", []):
+                since.setdefault(p, s_)
+            for (p, _a) in getattr(x, "unsubbed", []):
+                since.pop(p, None)
+        if set(since) != set(paths):
+            w.skips["c08-sub-history-unclear"] += 1
+            continue
+        final_prev = defaultdict(int)
+        for x in chain[:-1]:
+            for f in x.fwd:
+                if f["retain"] and f["cursor"] == "-":
+                    continue
+                if f["topic_resolved"] is None or f["payload"] == b"":
+                    continue
+                if f["qos"] == 0 or f.get("acked"):
+                    final_prev[(f["topic_resolved"], f["payload"])] += 1
+        got = defaultdict(int)
+        for f in l.fwd:
+            if f["retain"] and f["cursor"] == "-":
+                continue
+            if f["topic_resolved"] is None or f["payload"] == b"":
+                continue
+            got[(f["topic_resolved"], f["payload"])] += 1
+        k = defaultdict(int)
+        for p in paths:
+            for (n, topic, payload, _r, _pub, _q, _i) in w.accepted:
+                if n >= since[p] and payload != b"" and topic_matches(topic, p):
+                    k[(topic, payload)] += 1
+        for key, cnt in got.items():
+            if cnt > k.get(key, 0) - final_prev.get(key, 0):
+                w.viol(l.at, "C08", "resumed link %d (%r): %r delivered %d times after resume; %d matching subscriptions, %d final deliveries before" % (
+                    l.k, l.name, key, cnt, k.get(key, 0), final_prev.get(key, 0)))
+                break
+        within = all(w.log_bytes[p] < w.cfg["segcount"] * w.cfg["segsize"] for p in paths)
+        if q and l.ended is None and within:
+            for key, kk in k.items():
+                if final_prev.get(key, 0) + got.get(key, 0) < kk:
+                    w.viol(l.at, "C08", "resumed link %d (%r): idle broker never delivered %r (final before resume %d, after %d, subscriptions %d)" % (
+                        l.k, l.name, key, final_prev.get(key, 0), got.get(key, 0), kk))
+                    break
+        w.stats["c08_resumed_links_checked"] += 1
+
     # -------- C17: at most one member per group and message
     groups = defaultdict(list)
     for l in w.links:
@@ -600,6 +685,34 @@ def check_delivery(w, q):
             if g is not None:
                 groups[g].append((l, path, flt))
     for g, members in groups.items():
+        # ---- completeness / member order for groups whose members never left
+        mlinks = []
+        for (l, path, flt) in members:
+            if l not in mlinks:
+                mlinks.append(l)
+        simple = all(len(set(x[0] for x in getattr(l, "new_subs", []))) == 1 and not getattr(l, "unsubbed", None)
+                     and l.clean and not l.resumed and not l.notes for l in mlinks)
+        paths_g = set(path for (_l, path, _f) in members)
+        if simple and len(paths_g) == 1:
+            flt = members[0][2]
+            start = min(x[2] for l in mlinks for x in getattr(l, "new_subs", []))
+            exp = [(tp, pl) for (n, tp, pl, _r, _p, _q, _i) in w.accepted if n >= start and pl != b"" and topic_matches(tp, flt)]
+            pos = {x: j for j, x in enumerate(exp)}
+            union = set()
+            for l in mlinks:
+                got = [(f["topic_resolved"], f["payload"]) for f in l.fwd if (f["topic_resolved"], f["payload"]) in pos]
+                union.update(got)
+                idx = [pos[x] for x in got]
+                if idx != sorted(idx):
+                    w.viol(l.at, "C17", "group %r member link %d saw its share out of acceptance order" % (g, l.k))
+            never_left = all(l.ended is None for l in mlinks)
+            within = w.log_bytes[flt] < w.cfg["segcount"] * w.cfg["segsize"]
+            if q and never_left and within:
+                missing = [x for x in exp if x not in union]
+                if missing:
+                    w.viol(mlinks[0].at, "C17", "group %r (%d members, none ever left): idle broker never forwarded %r to any member (%d missing of %d)" % (
+                        g, len(mlinks), missing[0], len(missing), len(exp)))
+                w.stats["c17_groups_complete_checked"] += 1
         # links that hold ONLY shared subscriptions on this group's filters: their forwards are group forwards
         pure = [l for (l, path, flt) in members
                 if all(strip_share(p)[0] is not None for p in set(x[0] for x in getattr(l, "new_subs", []))) and l.clean and not l.resumed]
@@ -617,10 +730,16 @@ def check_delivery(w, q):
             n_paths = len(set(x[0] for x in getattr(l, "new_subs", [])))
             for key, cnt in c.items():
                 if cnt > n_paths:
-                    w.viol(l.at, "C17", "group %r member link %d got %r %d times" % (g, l.k, key, cnt))
+                    if g in w.rewound_groups:
+                        w.known.append((l.at, "C17", "K-C17-rewind", "group %r member link %d got %r %d times after the group cursor was rewound" % (g, l.k, key, cnt)))
+                    else:
+                        w.viol(l.at, "C17", "group %r member link %d got %r %d times" % (g, l.k, key, cnt))
                 if n_paths == 1:
                     if key in seen and seen[key] is not l:
-                        w.viol(l.at, "C17", "group %r: %r forwarded to two members (links %d and %d)" % (g, key, seen[key].k, l.k))
+                        if g in w.rewound_groups:
+                            w.known.append((l.at, "C17", "K-C17-rewind", "group %r: %r forwarded to two members after the group cursor was rewound" % (g, key)))
+                        else:
+                            w.viol(l.at, "C17", "group %r: %r forwarded to two members (links %d and %d)" % (g, key, seen[key].k, l.k))
                     seen[key] = l
 
 
